@@ -651,6 +651,7 @@ result_t World::onRead(unsigned int timeout) {
         return doTimeout(0);
       case REPLACE:
         if (d.k == D_ECHO) { if (sc.unbounded && gapLeft > 0) gapLeft--; echoDelivered(d.v, (uint8_t)ch.arg); return RESULT_OK; }
+        if (sc.unbounded && active != nullptr && !exchange && gapLeft > 0) gapLeft--;  // inside a scripted foreign telegram (in a gap takeByte() counts; a responder's symbols stay free)
         takeByte(); deliverSym((uint8_t)ch.arg, 0); return RESULT_OK;
       case LOSE_QUIET:
         if (sc.unbounded && gapLeft > 0) gapLeft--;
